@@ -1,10 +1,10 @@
 #!/bin/bash
 # like try_mutant.sh but in the scratch worktree /tmp/wt2/dev (FGGS_REPO), so /repo itself is not touched
 patch=$1; prop=$2; tier=${3:-quick}
-W=/tmp/wt2/dev2
+W=/tmp/wt2/dev3
 cd $W && git checkout -q --detach $(git -C /repo rev-parse HEAD) 2>/dev/null; git reset -q --hard HEAD
 git apply --3way "$patch" 2>/tmp/apply_dev.err || git apply "$patch" || { echo "PATCH DOES NOT APPLY"; cat /tmp/apply_dev.err | head -5; git reset -q --hard HEAD; exit 3; }
 git reset -q
 cd /verif
-VERIF_REPLAY_DIR=/tmp/wt2/replays VERIF_EVIDENCE_DIR=/tmp/wt2/evidence FGGS_REPO=$W /venv/bin/python /verif/check.py check "$prop" --tier "$tier" 2>&1 | grep -v "conda WARNING" | grep -E "^\[|VIOLATION|signature|HARNESS|NONDET|WORKER" | cut -c1-330 | head -${4:-4}
+VERIF_REPLAY_DIR=/tmp/wt2/replays3 VERIF_EVIDENCE_DIR=/tmp/wt2/evidence3 FGGS_REPO=$W /venv/bin/python /verif/check.py check "$prop" --tier "$tier" 2>&1 | grep -v "conda WARNING" | grep -E "^\[|VIOLATION|signature|HARNESS|NONDET|WORKER" | cut -c1-330 | head -${4:-4}
 cd $W && git reset -q --hard HEAD
